@@ -4,4 +4,4 @@ From OlaBase Require Import Bytes.
 From C14 Require Import Model PidDescs Spec.
 Extraction Language OCaml.
 Extraction "model.ml" io_witness N.div_eucl inflate serialize calc consistent wf_desc layout
-  bools_canonical reenc reenc_strict int_shown serialize_space serialize_into gcalc get_by_pid get_by_name find_pid find_name has_store store_count PidDescs.store_index_sizes PidDescs.all PidDescs.pids.
+  bools_canonical reenc reenc_strict int_shown serialize_space serialize_into gcalc get_by_pid get_by_name find_pid find_name has_store store_count PidDescs.store_index_sizes override_descs override_pids override_ids PidDescs.all PidDescs.pids.
